@@ -29,6 +29,12 @@ Definition decide_literal (allow : bool) (a : addr) : decision :=
 
 Inductive sel := SelLoopback | SelNonRoutable | SelSuitable (a : addr).
 
+(* every address refused so far was a loopback one (none yet, or the status is still Loopback).
+   As found, the test was `status.is_none()`: only the first address of an answer could be reported
+   as loopback, so a name with two loopback addresses was reported as non-routable (310 for 311) *)
+Definition only_loopback_so_far (status : option sel) : bool :=
+  match status with None | Some SelLoopback => true | Some _ => false end.
+
 (* the `for a in resolved` loop *)
 Fixpoint select (allow v6ok : bool) (status : option sel) (answers : list addr) : option sel :=
   match answers with
@@ -36,7 +42,7 @@ Fixpoint select (allow v6ok : bool) (status : option sel) (answers : list addr) 
   | a :: rest =>
     if (afam a =? 6) && negb v6ok then select allow v6ok status rest
     else if is_global_ip a || allow then Some (SelSuitable a)
-    else if (match status with None => true | Some _ => false end) && ip_is_loopback a
+    else if ip_is_loopback a && only_loopback_so_far status
          then select allow v6ok (Some SelLoopback) rest
     else select allow v6ok (Some SelNonRoutable) rest
   end.
